@@ -90,6 +90,10 @@ def parseEv (s : String) : Option (Ev × String × Option Bytes) :=
   | ["g", _] => pure (.tick 0, "g", none)
   -- cluster lease store: the slot of the key moves to another node (with its keys): nothing the model sees
   | ["mv", k, _] => do let k ← Hex.decode k; pure (.tick 0, "mv", some k)
+  -- … starts MIGRATING to another node (-ASK / ASKING from then on), one key is MIGRATEd: nothing the model sees
+  -- (Props/C15Cluster.lean clientDo_refines: the routed request is the single-store request)
+  | ["mg", k, _] => do let k ← Hex.decode k; pure (.tick 0, "mg", some k)
+  | ["mk", k] => do let k ← Hex.decode k; pure (.tick 0, "mk", some k)
   | ["lc", k, i, a, _] => do
     let k ← Hex.decode k; let i ← Hex.decode i; let a ← parseBool a
     pure (.lostCampaign k i a, "lc", some k)
@@ -204,6 +208,39 @@ def handle : List String → Option (List String)
       let f := fixCfg { lease := l, renew := r }
       some [s!"#{idx} ttl={ttlSeconds f} renew={f.renew}"]
     | _, _ => some [s!"#{idx} bad-op"]
+  | "loop" :: idx :: now0 :: ttl :: key :: evs =>
+    -- C15loop: the EVALs the store saw from the real runCluster loop (collapsed), with the harness's injections
+    -- at their places, replayed on the lease model: C = campaign script, X = resign script,
+    -- I:<advance>:<val>:<ttl ms> = the clock advances and (val non-empty) another contender's value is written
+    match now0.toNat?, ttl.toNat?, Hex.decode key with
+    | some now0, some ttl, some key =>
+      let rec go (st : Store) (now : Nat) : List String → List String → Option (List String)
+        | [], acc => some acc.reverse
+        | e :: rest, acc =>
+          match e.splitOn ":" with
+          | ["C", id] =>
+            match Hex.decode id with
+            | some id =>
+              let r := campaignCall st now key id ttl
+              go r.1 now rest (("C=" ++ (match replyInt r.2 with | some n => toString n | none => "err")) :: acc)
+            | none => none
+          | ["X", id] =>
+            match Hex.decode id with
+            | some id =>
+              let r := resignCall st now key id ttl
+              go r.1 now rest (("X=" ++ (match replyInt r.2 with | some n => toString n | none => "err")) :: acc)
+            | none => none
+          | ["I", adv, val, t] =>
+            match adv.toNat?, Hex.decode val, t.toNat? with
+            | some adv, some val, some t =>
+              let now' := now + adv
+              go (if val.isEmpty then st else st.set key ⟨val, now' + t⟩) now' rest acc
+            | _, _, _ => none
+          | _ => none
+      match go Store.empty now0 evs [] with
+      | some outs => some [s!"#{idx} {" ".intercalate outs}"]
+      | none => some [s!"#{idx} bad-op"]
+    | _, _, _ => some [s!"#{idx} bad-op"]
   | "shared" :: _ => some []       -- monitor-only op (one client, two keys, stalled reply)
   | "contend" :: _ => some []      -- monitor-only op (two hosts' configurations; no model output)
   | "contendsrc" :: _ => some []   -- monitor-only op (one source spelled differently in two configurations)
